@@ -35,7 +35,7 @@ def main():
             finally:
                 shutil.rmtree(d, ignore_errors=True)
         meta["false_alarm"] = [c for c, r in meta["checks"].items() if isinstance(r, dict) and r["rc"] == 1]
-        dest = os.path.join(ROOT, "benign", "%sr-%s" % (pid, k))
+        dest = os.path.join(ROOT, "benign", "%s%s-%s" % (pid, os.environ.get("BEN_TAG", "r"), k))
         shutil.rmtree(dest, ignore_errors=True)
         os.makedirs(dest)
         shutil.copy(patch, dest)
